@@ -196,6 +196,16 @@ def eval_forward(c, rec):
             rec.finding('fwd/reimport', 'armored-octets-differ/' + reg, c, '')
     except Exception as e:   # noqa
         rec.finding('fwd/reimport', 'armored-exception/' + reg, c, repr(e))
+    # a copy of the signature object (what key.pubkey and copy.copy(key) export) is the same signature, octet for octet
+    try:
+        import copy as _copy
+        cp = wire.split_packets(bytes(_copy.copy(t.pg_sig())))[0].body
+        if cp != t.sig:
+            s2 = rsig.parse_sig_body(cp)
+            what = 'left16' if s2.left16 != s.left16 else 'hashed-area' if s2.hashed_prefix != s.hashed_prefix else 'other'
+            rec.finding('fwd/copy', 'copy-exports-different-octets/' + what, c, '%s -> %s' % (t.sig[-12:].hex(), cp[-12:].hex()))
+    except Exception as ex:   # noqa
+        rec.finding('fwd/copy', 'exception/' + harness.exc_key(ex), c, repr(ex))
     # embedded primary-key binding
     if t.embedded:
         e = sigkit.embedded_triple(t)
